@@ -190,6 +190,24 @@ def run_reentrant(fa, res, checks):
         back = fa.schemaless_reader(_io.BytesIO(fo.getvalue()), sch)
         if back != plain:
             res.add(Violation("c01.value", "roundtrip-different-value:reentrant", f"read back {short(back)}", info))
+    # collections of very many items that take no bytes at all
+    for count in (16385, 20000):
+        for item, val in (("null", None), ({"type": "record", "name": "Nothing", "fields": []}, {}), ({"type": "fixed", "name": "Z0", "size": 0}, b"")):
+            for kind in ("array", "map"):
+                raw_ = {"type": kind, ("items" if kind == "array" else "values"): item}
+                datum = [val] * count if kind == "array" else {"k%d" % i: val for i in range(count)}
+                res.evals += 1
+                info = {"schema": raw_, "form": "raw", "datum": f"<{count} zero-byte items>"}
+                try:
+                    fo = _io.BytesIO()
+                    fa.schemaless_writer(fo, raw_, datum)
+                    back = fa.schemaless_reader(_io.BytesIO(fo.getvalue()), raw_)
+                    back2 = fa.schemaless_reader(_io.BufferedReader(_io.BytesIO(fo.getvalue())), raw_)
+                except Exception as e:
+                    res.add(Violation("c01.read", f"read-raised:{type(e).__name__}:zero-byte-items", f"{kind} of {count} zero-byte items: {type(e).__name__}: {str(e)[:100]}", info))
+                    continue
+                if back != datum or back2 != datum:
+                    res.add(Violation("c01.value", "roundtrip-different-value:zero-byte-items", f"{kind} of {count} zero-byte items read back differently", info))
     res.distinct = 2
     res.sample({"reentrant": "lazy Mapping record"})
     return res
